@@ -588,6 +588,10 @@ func c03wakeups(c *ctx) {
 					res = "still-parked"
 				}
 				run.rig.shutdown()
+				if res != "returned" {
+					// release the reader so that the bubble can end; the verdict above stands
+					mux.VerifForceCloseRecv(run.B.st)
+				}
 				<-done
 			})
 			want := map[string]string{"peer-close": "ErrBrokenStream", "local-close": "ErrBrokenStream", "data": "nil", "peer-close-after-data": "nil", "session-close": "ErrBrokenStream"}[kind]
